@@ -105,7 +105,11 @@ class ANSI:
                     # Eval number
                     else:
                         # Limit and save number value
-                        params.append(min(int(current or 0), 9999))
+                        # (Values are capped at 9999, so five significant
+                        # digits decide: never hand an arbitrarily long digit
+                        # string to `int()`, which raises ValueError above
+                        # `sys.get_int_max_str_digits()` digits.)
+                        params.append(min(int(current.lstrip("0")[:5] or 0), 9999))
 
                         # Get delimiter token if present
                         if char == ";":
